@@ -64,6 +64,13 @@ Definition mon (m : mst) (o : op) (out : list obs) : mst * verdict :=
       ({| m_seen := sn; m_last := l; m_unans := (c, h) :: m_unans m; m_notifs := m_notifs m |},
        fresh m c ++
        (if N.eqb c c' && N.eqb k K_REQUEST && N.eqb p h then [] else [CL_SHAPE]) ++ v)
+  | RespDuring h r, [Written c k p; RetCtr c'] =>
+      (* the request is written and unanswered; the response processed meanwhile answered r *)
+      (saw m c ((c, h) :: remove_N r (m_unans m)) (m_notifs m),
+       fresh m c ++
+       (if N.eqb c c' && N.eqb k K_REQUEST && N.eqb p h then [] else [CL_SHAPE]))
+  | RespDuring h r, [RetCtr c] =>
+      (m, if mem_pair c h (m_unans m) then [] else [CL_WITHHELD])
   | Request h, [Written c k p; RetCtr c'] =>
       (saw m c ((c, h) :: m_unans m) (m_notifs m),
        fresh m c ++
